@@ -98,7 +98,7 @@ claim("C02",
 
 claim("C14",
       "Twin templates per corpus statement: analysed under default schema S (scoped override of the real SQLLineageConfig, the stubbed "
-      "environment, the environment while ANOTHER key is overridden in scope, or a scoped override over a different environment value) versus the statement with every unqualified table written S.name; S and up to 4/5 other names are free, so S may equal "
+      "environment, the environment while ANOTHER key is overridden in scope, or a scoped override over a different environment value) versus the statement with every unqualified table written S.name; S and up to 4 other names are free, so S may equal "
       "a qualifier already present; z3 decides over all namings that tables, column pairs and exported node ids (both levels) are equal. "
       "The same twin runs under the legacy sqlparse analyzer (its table factory is separate code). Counterexamples replayed on the "
       "unmodified library with the real config mechanism.",
